@@ -172,3 +172,13 @@ func (cs *ConsensusState) VerifClose() error {
 	cs.wal.Stop()
 	return nil
 }
+
+// VerifStartReactorOnly marks the reactor as running, so that Receive
+// processes messages, without starting the ConsensusState's goroutines: the
+// harness steps the state itself (VerifStepPeerQueue).
+func (conR *ConsensusReactor) VerifStartReactorOnly() error {
+	conR.fastSync = true
+	_, err := conR.Start()
+	conR.fastSync = false
+	return err
+}
